@@ -1401,6 +1401,7 @@ func (m *Manager) AddPoolTransactions(txns []types.Transaction) (known bool, err
 		return known, err
 	}
 
+	prevLen, prevWeight := len(m.txpool.txns), m.txpool.weight
 	for _, txn := range txns {
 		txid := txn.ID()
 		if _, ok := m.txpool.indices[txid]; ok {
@@ -1408,6 +1409,13 @@ func (m *Manager) AddPoolTransactions(txns []types.Transaction) (known bool, err
 		}
 		ts := m.store.SupplementTipTransaction(txn)
 		if err := consensus.ValidateTransaction(m.txpool.ms, txn, ts); err != nil {
+			// none of the set may be added: remove the members added so far
+			for _, added := range m.txpool.txns[prevLen:] {
+				delete(m.txpool.indices, added.ID())
+			}
+			clear(m.txpool.txns[prevLen:])
+			m.txpool.txns = m.txpool.txns[:prevLen]
+			m.txpool.weight = prevWeight
 			m.txpool.ms = nil // force revalidation next time the pool is queried
 			return false, fmt.Errorf("transaction %v conflicts with pool: %w", txid, err)
 		}
@@ -1481,12 +1489,20 @@ func (m *Manager) AddV2PoolTransactions(basis types.ChainIndex, txns []types.V2T
 		return known, err
 	}
 
+	prevLen, prevWeight := len(m.txpool.v2txns), m.txpool.weight
 	for _, txn := range txns {
 		txid := txn.ID()
 		if _, ok := m.txpool.indices[txid]; ok {
 			continue // skip transactions already in the pool
 		}
 		if err := consensus.ValidateV2Transaction(m.txpool.ms, txn); err != nil {
+			// none of the set may be added: remove the members added so far
+			for _, added := range m.txpool.v2txns[prevLen:] {
+				delete(m.txpool.indices, added.ID())
+			}
+			clear(m.txpool.v2txns[prevLen:])
+			m.txpool.v2txns = m.txpool.v2txns[:prevLen]
+			m.txpool.weight = prevWeight
 			m.txpool.ms = nil // force revalidation next time the pool is queried
 			return false, fmt.Errorf("transaction %v conflicts with pool: %w", txid, err)
 		}
